@@ -67,7 +67,7 @@ def run(tier):
                 seen.add(h)
                 ops = json.loads(line[2:])
                 # a blocked accept needs a second thread: not a single-threaded program
-                if not any(o["op"] == "accept.call" for o in ops):
+                if not any(o["op"] in ("accept.call", "accept.fail") for o in ops):
                     behs.append({"ops": ops})
     per_build = {b: prop_c08.replay_behs([dict(x) for x in behs], b, "thread") for b in BUILDS}
     for i, beh in enumerate(behs):
